@@ -83,6 +83,9 @@ func (r *specRef) derive(log []int, terms []int) (bool, []refNode) {
 func (r *specRef) eval(nodes []refNode, n int, vals []*gosym.Term) *gosym.Term {
 	nd := nodes[n]
 	if nd.sym < r.T {
+		if r.s.Toks[nd.sym].Tag == "alt" {
+			return gosym.Bin(gosym.OpAdd, vals[nd.leaf], gosym.ConstInt(64, 1000))
+		}
 		return vals[nd.leaf]
 	}
 	rl := r.s.Rules[nd.rule-1]
